@@ -6,3 +6,9 @@ pub assume_specification<T: Default>[ core::mem::take::<T> ](dest: &mut T) -> (r
 pub assume_specification<T, U, F: FnOnce(T) -> U>[ Option::<T>::map_or::<U, F> ](o: Option<T>, default: U, f: F) -> (r: U)
     requires o matches Some(x) ==> f.requires((x,)),
     ensures match o { Some(x) => f.ensures((x,), r), None => r == default };
+pub assume_specification<T, P: FnOnce(&T) -> bool>[ Option::<T>::filter::<P> ](o: Option<T>, p: P) -> (r: Option<T>)
+    requires o matches Some(x) ==> p.requires((&x,)),
+    ensures match o {
+        None => r.is_none(),
+        Some(x) => (p.ensures((&x,), true) ==> r == Some(x)) && (p.ensures((&x,), false) ==> r.is_none()) && (r.is_some() ==> r == Some(x)),
+    };
